@@ -26,7 +26,11 @@ import WtfModel.Proofs.Boosts
 namespace Wtf.C01
 open Wtf.Search Wtf.Legacy ScoreOps ScoreLaws
 
-/-! ### the model's inline constants are the ones in the source (regenerated on every run) -/
+/-! ### the model's inline constants are the ones in the source (regenerated on every run)
+
+  Since DESIGN 13.5d the definitions in `Model/Search.lean` ARE the regenerated values, so the first conjuncts hold by
+  unfolding; they stay as the place where the correspondence between the two name spaces is written down.  The legacy /
+  recovery literals and the code-shape flags are still compared. -/
 
 theorem params_match :
     Search.defaultLimit = Gen.SearchParams.defaultLimit ∧
